@@ -22,8 +22,8 @@ EXPLANATION = (
 RULE_TEXT = "Instances: one per state write, per incarnation write, per protocol clause. Distinct by (rule, construct)."
 NOT_DECIDED = ["no false deaths when delays are well below the probe interval (a statement about numeric time bounds)",
                "detection of a stopped member within a bounded number of probe rounds (numeric / probabilistic)",
-               "phi-accrual monotonicity of the suspicion level in elapsed time (numeric)"]
-ASSUMPTIONS = ["handlers are atomic (checked: no method of MembershipProtocol suspends)"]
+               "the numeric value of phi (only its monotone shape in elapsed time is decided, C13-6)"]
+ASSUMPTIONS = ["handlers are atomic (checked: no method of MembershipProtocol suspends)", "PhiAccrualDetector min_std > 0 (default 0.1; the constructor does not validate it)"]
 
 
 def _eq(a: str, b: str) -> Fact:
@@ -31,8 +31,81 @@ def _eq(a: str, b: str) -> Fact:
     return Fact("eq", x, y)
 
 
+
+PHI = "happysimulator/components/consensus/phi_accrual_detector.py"
+
+
+def rule_phi_shape(ctx: Ctx) -> None:
+    """C13-6: phi(now) is a composition of pieces that are monotone in `now`, and its saturation branch returns +inf."""
+    from ..mono import direction, is_plus_infinity
+    from ..facts import atoms
+
+    prog = ctx.prog
+    fn = prog.func(PHI, "PhiAccrualDetector.phi")
+    var = [p for p in fn.params() if p != "self"][0]
+    env = {var: "inc"}
+    env_pos: set[str] = set()
+    pos = {"self._min_std"}
+    n_ret = 0
+
+    def walk(body, region):
+        """region: None (any now), 'low' (holds for small now only), 'high' (large now only)"""
+        nonlocal n_ret
+        for st in body:
+            if isinstance(st, ast.Expr) and isinstance(st.value, ast.Constant):
+                continue
+            if isinstance(st, ast.Assign) and len(st.targets) == 1 and path_of(st.targets[0]):
+                d = direction(st.value, env, pos, env_pos)
+                env[path_of(st.targets[0])] = d
+                from ..mono import positive
+                if positive(st.value, pos, env_pos):
+                    env_pos.add(path_of(st.targets[0]))
+                continue
+            if isinstance(st, ast.If) and not st.orelse and len(st.body) == 1 and isinstance(st.body[0], ast.Return):
+                fs = atoms(st.test, True)
+                reg = "data"
+                for f in fs:
+                    if f.op in ("lt", "le"):
+                        da, db = env.get(f.a, "c"), env.get(f.b, "c")
+                        # a < b holds for small now when a increases / b decreases; for large now when a decreases / b increases
+                        if (da == "inc" and db == "c") or (da == "c" and db == "dec"):
+                            reg = "low"
+                        elif (da == "dec" and db == "c") or (da == "c" and db == "inc"):
+                            reg = "high"
+                        elif da != "c" or db != "c":
+                            reg = "?"
+                r = st.body[0]
+                n_ret += 1
+                if reg == "high":
+                    ok = r.value is not None and is_plus_infinity(r.value)
+                    ctx.ob("C13-6", "G6", fn, r, ok, f"phi saturates at +infinity: the branch `{unparse(st.test)}` holds for ever larger {var}, and every finite value would lie below values of the unsaturated branch "
+                           "(phi would drop while no heartbeat arrives)")
+                elif reg == "low":
+                    ok = isinstance(r.value, ast.Constant) and r.value.value == 0
+                    ctx.ob("C13-6", "G6", fn, r, ok, f"below the region of the model (`{unparse(st.test)}`) phi is its minimum 0")
+                elif reg == "data":
+                    ctx.ob("C13-6", "G6", fn, r, isinstance(r.value, ast.Constant), f"`{unparse(st.test)}` does not depend on {var}: a constant there cannot break monotonicity in {var}")
+                else:
+                    ctx.ob("C13-6", "G6", fn, r, False, f"cannot classify `{unparse(st.test)}` as a lower/upper region of {var}")
+                continue
+            if isinstance(st, ast.Return):
+                n_ret += 1
+                d = direction(st.value, env, pos, env_pos)
+                ctx.ob("C13-6", "G6", fn, st, d == "inc", f"the unsaturated value `{unparse(st.value)}` is non-decreasing in {var} (derived direction: {d}; "
+                       f"chain: {', '.join(f'{k}:{v}' for k, v in env.items() if v != 'c')})")
+                continue
+            ctx.ob("C13-6", "G6", fn, st, False, f"statement shape not covered by the monotonicity evaluator: `{norm_stmt(st)}`")
+    walk(fn.node.body, None)
+    need(n_ret >= 3, "C13-6: phi() should have its data / saturation / value returns")
+    ia = prog.func(PHI, "PhiAccrualDetector.is_available")
+    rets = [s2 for s2 in walk_stmts(ia.node.body) if isinstance(s2, ast.Return)]
+    ok = len(rets) == 1 and unparse(rets[0].value).replace(" ", "") == f"self.phi({[p for p in ia.params() if p != 'self'][0]})<self._threshold"
+    ctx.ob("C13-6", "G3", ia, rets[0] if rets else None, ok, "available ⇔ phi(now) < threshold (so availability is monotone as well: once suspected, suspected until the next heartbeat)")
+    ctx.floor("C13-6", 5)
+
 def run(ctx: Ctx) -> None:
     prog = ctx.prog
+    ctx.guarded(rule_phi_shape)
     c = prog.cls(MEM, "MembershipProtocol")
     gens = [m.qual for m in c.methods.values() if m.is_generator]
     ctx.ob("C13-0", "G5", None, "membership handlers are atomic", not gens, f"no MembershipProtocol method suspends (generators: {gens})", relpath=MEM, node=c.node)
@@ -120,6 +193,10 @@ def run(ctx: Ctx) -> None:
 
 
 MUTANTS = [
+    ("phi-saturates-finite", PHI, "        if p <= 0:\n            return float(\"inf\")", "        if p <= 0:\n            return 307.65", "C13-6"),
+    ("phi-uses-erf", PHI, "        p = 0.5 * math.erfc(y / math.sqrt(2))", "        p = 0.5 * (1 + math.erf(y / math.sqrt(2)))", "C13-6"),
+    ("phi-elapsed-reversed", PHI, "        elapsed = now_s - self._last_heartbeat\n        if elapsed < 0:", "        elapsed = self._last_heartbeat - now_s\n        if elapsed < 0:", "C13-6"),
+    ("available-at-threshold-flipped", PHI, "        return self.phi(now_s) < self._threshold", "        return self.phi(now_s) > self._threshold", "C13-6"),
     ("dead-from-any-state", MEM, "            if info.state == MemberState.SUSPECT:\n                info.state = MemberState.DEAD", "            if info.state != MemberState.DEAD:\n                info.state = MemberState.DEAD", "C13-1"),
     ("gossip-alive-same-incarnation", MEM, "            elif state_str == \"alive\" and incarnation > info.incarnation:", "            elif state_str == \"alive\" and incarnation >= info.incarnation:", "C13-1"),
     ("ping-revives-dead", MEM, "            self._members[sender].detector.heartbeat(self.now.to_seconds())\n            if self._members[sender].state == MemberState.SUSPECT:\n                self._members[sender].state = MemberState.ALIVE\n\n        # Send ack back",
@@ -133,5 +210,7 @@ MUTANTS = [
 ]
 MUTANTS = [m for m in MUTANTS if m[4] != "C13-NONE"]
 REFACTORS = [
+    ("phi-saturation-spelled-math-inf", PHI, "            return float(\"inf\")", "            return math.inf"),
+    ("phi-y-inlined", PHI, "        y = (elapsed - mean) / std\n        # Use erfc for numerical stability\n        p = 0.5 * math.erfc(y / math.sqrt(2))", "        p = 0.5 * math.erfc((elapsed - mean) / std / math.sqrt(2))"),
     ("suspicion-timeout-early-return", MEM, "            if info.state == MemberState.SUSPECT:\n                info.state = MemberState.DEAD", "            if MemberState.SUSPECT == info.state:\n                info.state = MemberState.DEAD"),
 ]
